@@ -1,8 +1,37 @@
 """C13 — transportation solver returns a feasible minimum-cost plan; toAssignment = argmax."""
 VARIANT = "san"
 RULE = "see stats"
-PARTIAL = []
-ASSUMPTIONS = []
-LEVEL_TEXT = "tbd"
-LEVEL_NOTE = "tbd"
-TECHNIQUE = "tbd"
+TIMEOUT = {"quick": 900, "thorough": 3 * 3600, "search": 1800}
+PARTIAL = [
+    "universal optimality of solve() (ssp_optimal_full_statement) is not proved; instead cert_optimal (proved, any size) "
+    "+ the verified checker checkCert accepting potentials computed by the driver on every explored instance "
+    "(ssp_optimal_partial), plus brute-force optimum on the real output for <=5 sources x <=4 sinks, demands <=4",
+    "non-negativity of every entry of the solver's plan is not proved for all inputs (needs the lazy priority-queue "
+    "invariant and libstdc++ heap correctness); checked per instance by checkCert (primal feasibility) and by the direct oracle",
+    "termination / absence of assertion failures (ssp_terminates_full_statement) is not proved: the model is fuelled "
+    "(updateTree: n*2^n+1 rounds, argued bound; chain walks: nbSinks+1; sendSource: demand, sufficient by ssp_feasible_partial's "
+    "0 < sent <= remaining) and reports exhaustion as an error; every explored instance answers `status ok` and agrees with the C++",
+    "proved for all inputs whenever the model returns a plan (ssp_feasible_partial): every source fully allocated, no sink over capacity",
+    "float costs: theorems speak about the stored fixed-point integer costs (costsFromIntegers is executed with IEEE doubles in the "
+    "model and compared entry by entry); optimality in the real-valued costs holds up to the rounding bound checked by the oracle",
+]
+ASSUMPTIONS = [
+    "C++ long long / int arithmetic modelled as unbounded Int; INT_MAX sentinel kept literally; generators keep |cost| <= INT_MAX/(8*sinks) "
+    "so no int overflow is possible, and the real code runs under UBSan",
+    "std::priority_queue modelled operation-for-operation after libstdc++ 12 bits/stl_heap.h (make_heap/push_heap/pop_heap), "
+    "because heap order among equal costs decides which source is moved",
+    "std::sort on distinct (-demand, index) pairs = the unique sorted order (List.mergeSort)",
+    "Lean Float = IEEE binary64 with C round(); float inputs cross as the bits of (double)cost",
+    "large demands are explored as small instances scaled by a common factor up to 2^36 (solve() is pseudo-polynomial: "
+    "rounds ~ demand / smallest allocation on the chain)",
+]
+LEVEL_TEXT = ("Lean 4 theorems over an executable model of TransportationProblem / TransportationSuccessiveShortestPath: "
+              "weak-duality certificate soundness (cert_optimal, any size), toAssignment = first argmax, increaseCapacity covers the demand, "
+              "flow conservation of sendSource (every source fully allocated, no sink over capacity whenever the model returns a plan); "
+              "the model is tied to the C++ entry by entry (allocations, scaled costs, capacities, assignment) on exhaustive tiny grids and "
+              "random instances up to 16 sinks x 300 sources and magnitudes to 2^40, and answers `cert ok` on each; the direct oracle "
+              "checks feasibility, argmax and the brute-force optimum on the real output")
+LEVEL_NOTE = ("Trusted: Lean kernel (axioms propext/Classical.choice/Quot.sound only), the hand-written model's tie to the code "
+              "(differential, bounded by the generator), unbounded Int for C++ integers, libstdc++ heap algorithms as transcribed. "
+              "Universal optimality, non-negativity and termination are per-instance (certificate / correspondence), see partial_clauses.")
+TECHNIQUE = "Lean 4 proofs (weak duality; loop invariants of sendSource) + verified certificate checker run per instance + model/implementation correspondence stream + brute-force oracle"
